@@ -264,12 +264,68 @@ fn dc_and_zero_suite() -> SuiteReport {
     })
 }
 
-/// Sparse / dense random blocks from the tape: peak error <= 1 for every shape.
+/// Run the channel IDCT on `blocks` laid out `per_line` to a row over planes of
+/// `per_line*8 - crop_x` x `rows*8 - crop_y` samples (the decoder hands over planes of the picture
+/// size, which crop the last block column / row) holding three predictions: all 0, all 255 and a
+/// textured one. Every visible sample must be within 1 of clip(prediction + ideal residual).
+fn check_layout(blocks: &[[[i32; 8]; 8]], per_line: usize, crop_x: usize, crop_y: usize, tex_seed: u64) -> Result<(), String> {
+    let n = blocks.len();
+    let rows = (n + per_line - 1) / per_line;
+    let levels: Vec<hk::DecodedDctBlock> = blocks.iter().map(to_block).collect();
+    let w = per_line * 8 - crop_x;
+    let h = rows * 8 - crop_y;
+    let wants: Vec<[[i32; 8]; 8]> = blocks.iter().map(reference_idct).collect();
+    let tex = super::content_bytes(tex_seed, w * h);
+    for (pi, pred) in [vec![0u8; w * h], vec![255u8; w * h], tex].into_iter().enumerate() {
+        let mut out = pred.clone();
+        guard(|| hk::idct_channel(&levels, &mut out, per_line, w)).map_err(|p| format!("idct_channel({} blocks, {} per line, plane {}x{}) panicked: {}", n, per_line, w, h, p))?;
+        for y in 0..h {
+            for x in 0..w {
+                let b = x / 8 + (y / 8) * per_line;
+                let r = wants[b][y % 8][x % 8];
+                let want = (pred[x + y * w] as i32 + r).clamp(0, 255);
+                let got = out[x + y * w] as i32;
+                if (got - want).abs() > 1 {
+                    return Err(format!(
+                        "block {} of {} ({} per line, plane {}x{}, prediction {}): sample ({},{}) of block {:?} over prediction {} = {}, double-precision reference gives {}",
+                        b,
+                        n,
+                        per_line,
+                        w,
+                        h,
+                        ["all 0", "all 255", "textured"][pi],
+                        x % 8,
+                        y % 8,
+                        blocks.get(b),
+                        pred[x + y * w],
+                        got,
+                        want
+                    ));
+                }
+            }
+        }
+    }
+    Ok(())
+}
+
+/// Sparse / dense random blocks from the tape: peak error <= 1 for every shape, in any order and
+/// arrangement.
 fn sparse_case(g: &mut Gen) -> Verdict {
-    let shape = g.below(4); // 0 first row, 1 first column, 2 dense, 3 few coefficients anywhere
+    let case_shape = g.below(4); // 0 first row, 1 first column, 2 dense, 3 few coefficients anywhere
+    let mixed = g.chance(1, 2); // every block its own shape
     let n = g.range(1, 24) as usize;
-    let mut blocks = Vec::with_capacity(n);
+    let mut blocks: Vec<[[i32; 8]; 8]> = Vec::with_capacity(n);
+    let mut repeated = 0usize;
     for _ in 0..n {
+        if !blocks.is_empty() && g.chance(1, 4) {
+            // the same block again, somewhere after other blocks
+            let k = g.below(blocks.len() as u32) as usize;
+            let b = blocks[k];
+            blocks.push(b);
+            repeated += 1;
+            continue;
+        }
+        let shape = if mixed { g.below(5) } else { case_shape };
         let mut c = [[0i32; 8]; 8];
         let amp = match g.weighted(&[3, 3, 2]) {
             0 => 2047,
@@ -306,7 +362,7 @@ fn sparse_case(g: &mut Gen) -> Verdict {
                     }
                 }
             }
-            _ => {
+            3 => {
                 let k = g.range(1, 4);
                 for _ in 0..k {
                     let v = g.below(8) as usize;
@@ -314,19 +370,37 @@ fn sparse_case(g: &mut Gen) -> Verdict {
                     put(g, v, u);
                 }
             }
+            _ => {
+                // DC only / all zero
+                if g.bool() {
+                    put(g, 0, 0);
+                }
+            }
         }
         blocks.push(c);
     }
-    let shape_name = ["first row", "first column", "dense", "few coefficients"][shape as usize];
-    g.describe(|| json!({"shape": shape_name, "blocks": n, "first": format!("{:?}", blocks[0])}));
-    let got = match decoder_idct(&blocks) {
-        Ok(g) => g,
-        Err(m) => return Verdict::fail(m),
-    };
+    // arrangement: one row of blocks, or several rows; the plane may crop the last column / row
+    // (whole rows of blocks only, and at most 15 samples cropped, as for a plane of macroblocks)
+    let mut per_line = if g.chance(1, 2) { n } else { g.range(1, n as i64) as usize };
+    if n % per_line != 0 {
+        if n / per_line == 0 {
+            per_line = n;
+        } else {
+            blocks.truncate(n - n % per_line);
+        }
+    }
+    let n = blocks.len();
+    let rows = n / per_line;
+    let (crop_x, crop_y) = if g.chance(1, 3) { (g.below(if per_line >= 2 { 16 } else { 8 }) as usize, g.below(if rows >= 2 { 16 } else { 8 }) as usize) } else { (0, 0) };
+    let tex_seed = g.word() as u64;
+    let shape_name = if mixed { "mixed" } else { ["first row", "first column", "dense", "few coefficients"][case_shape as usize] };
+    g.describe(|| json!({"shape": shape_name, "blocks": n, "per_line": per_line, "crop": [crop_x, crop_y], "repeated_blocks": repeated, "texture_seed": tex_seed, "first": format!("{:?}", blocks[0])}));
+    if let Err(m) = check_layout(&blocks, per_line, crop_x, crop_y, tex_seed) {
+        return Verdict::fail(m);
+    }
     let mut nontrivial = false;
-    let mut key = shape as u64;
-    for (b, c) in blocks.iter().enumerate() {
-        let want = reference_idct(c);
+    let mut key = case_shape as u64 ^ ((per_line as u64) << 8);
+    for c in blocks.iter() {
         let nz = c.iter().flatten().filter(|v| **v != 0).count();
         nontrivial |= nz >= 2;
         for row in c.iter() {
@@ -334,25 +408,18 @@ fn sparse_case(g: &mut Gen) -> Verdict {
                 key = key.wrapping_mul(0x100000001b3) ^ (*v as u64 & 0xFFFF);
             }
         }
-        // The peak bound of Annex A concerns blocks whose ideal output stays inside the clipping
-        // range; where the ideal value is far outside both clip it identically anyway.
-        for y in 0..8 {
-            for x in 0..8 {
-                if (got[b][y][x] - want[y][x]).abs() > 1 {
-                    return Verdict::fail(format!(
-                        "{} block {:?}: sample ({},{}) = {}, double-precision reference {}",
-                        ["first-row", "first-column", "dense", "sparse"][shape as usize],
-                        c,
-                        x,
-                        y,
-                        got[b][y][x],
-                        want[y][x]
-                    ));
-                }
-            }
-        }
     }
-    Verdict::pass_l(nontrivial, key, vec![["shape: first row", "shape: first column", "shape: dense", "shape: few coefficients"][shape as usize]])
+    let mut l: Labels = vec![if mixed { "shape: mixed per block" } else { ["shape: first row", "shape: first column", "shape: dense", "shape: few coefficients"][case_shape as usize] }];
+    if repeated > 0 {
+        l.push("a block repeated later in the same plane");
+    }
+    if per_line < n {
+        l.push("several rows of blocks");
+    }
+    if crop_x + crop_y > 0 {
+        l.push("plane crops the last blocks");
+    }
+    Verdict::pass_l(nontrivial, key, l)
 }
 
 pub fn run(ctx: &Ctx) -> i32 {
@@ -369,7 +436,7 @@ pub fn run(ctx: &Ctx) -> i32 {
         ctx,
         reports,
         Summary {
-            rule: "annex_a_procedure: the Annex A / IEEE 1180 procedure verbatim - prescribed generator (randx*1103515245+12345), 10 000 blocks per range and sign, double-precision forward DCT rounded and clipped to 12 bits, double-precision inverse as reference - against the decoder's channel IDCT called through the verif-hooks re-export over a 0 plane and a 255 plane (which together reveal the clipped residual on -255..255); criteria peak<=1, pmse<=0.06, omse<=0.02, pme<=0.015, ome<=0.0015. zero_and_all_dc_blocks: the all-zero block in all five representations leaves planes untouched; all 4096 DC-only blocks have peak error <= 1. sparse_and_dense_blocks: tape-generated first-row, first-column, dense and few-coefficient blocks over -2048..2047, peak error <= 1. Non-trivial = block with >= 2 non-zero coefficients.",
+            rule: "annex_a_procedure: the Annex A / IEEE 1180 procedure verbatim - prescribed generator (randx*1103515245+12345), 10 000 blocks per range and sign, double-precision forward DCT rounded and clipped to 12 bits, double-precision inverse as reference - against the decoder's channel IDCT called through the verif-hooks re-export over a 0 plane and a 255 plane (which together reveal the clipped residual on -255..255); criteria peak<=1, pmse<=0.06, omse<=0.02, pme<=0.015, ome<=0.0015. zero_and_all_dc_blocks: the all-zero block in all five representations leaves planes untouched; all 4096 DC-only blocks have peak error <= 1. sparse_and_dense_blocks: tape-generated first-row, first-column, dense, few-coefficient, DC and zero blocks over -2048..2047 (one shape per case or mixed per block, a quarter of the blocks repeating an earlier block of the same call), arranged in one or several rows of blocks over planes that may crop the last block column / row, transformed over an all-0, an all-255 and a textured prediction plane: every sample within 1 of clip(prediction + double-precision residual). Non-trivial = block with >= 2 non-zero coefficients.",
             assumptions: vec![
                 "-256 is indistinguishable from -255 through a u8 plane; the reference is clipped to -255..255 for the comparison".into(),
                 "blocks are handed to the IDCT classified (zero / DC / first row / first column / full) the way the run-length stage classifies them".into(),
